@@ -85,6 +85,7 @@ class PipelineWorld:
         self.autos = None
         self.oracle_failures = [] # (signature, what, detail) found by boundary checks
         self._cfg_raised = False
+        self._pending = None      # (k, rc) of the submit-next-stage call in flight
         self._installed = False
         self._old_cwd = None
 
@@ -173,6 +174,16 @@ class PipelineWorld:
         self._real_create_config = pm.create_config_from_file
         pm.run_command = self._fake_auto_config
         pm.create_config_from_file = self._wrapped_create_config
+        self._real_serialize = pm.PipelineManager._serialize
+        world = self
+
+        def _wrapped_serialize(mgr):
+            # boundary: pipeline.json is about to be rewritten; an advance = the current stage on disk changes
+            disk = world.read_state()
+            if disk is not None and disk[0] != mgr.stage_num:
+                world.events.append(("advance",) + (world._pending or (-1, -1)))
+            return world._real_serialize(mgr)
+        pm.PipelineManager._serialize = _wrapped_serialize
         JobSubmitter.run_submit_jobs = staticmethod(self._fake_run_submit_jobs)
         self._old_cwd = os.getcwd()
         os.chdir(self.cwd)
@@ -185,6 +196,7 @@ class PipelineWorld:
         from jade.jobs.job_submitter import JobSubmitter
         pm = self._pm
         pm.run_command, pm.create_config_from_file, rsj = self._saved
+        pm.PipelineManager._serialize = self._real_serialize
         JobSubmitter.run_submit_jobs = rsj
         os.chdir(self._old_cwd)
         for k, v in self._env_backup.items():
@@ -247,6 +259,7 @@ class PipelineWorld:
         self._cfg_raised = False
         env = op[-1]
         self.env = dict(env)
+        self._pending = (op[1], op[2]) if op[0] == "next" and op[2] is not None else None
         exc = None
         sink = io.StringIO()
         try:
@@ -270,8 +283,6 @@ class PipelineWorld:
             exc = e
         after = self.read_state()
         new_subs = self.submissions[n_sub:]
-        if before is not None and after is not None and before[0] != after[0] and op[0] == "next" and op[2] is not None:
-            self.events.insert(n_ev, ("advance", op[1], op[2]))
         evs = self.events[n_ev:]
         stage_after = after[0] if after else -1
         if exc is None:
@@ -319,6 +330,11 @@ class PipelineWorld:
         def fake_run_command(cmd, *a, **kw):
             argv = shlex.split(cmd)
             if argv[:3] == ["jade", "pipeline", "submit-next-stage"]:
+                opts = dict(a[2:].split("=", 1) for a in argv[4:] if a.startswith("--") and "=" in a)
+                try:
+                    world._pending = (int(opts["stage-num"]), int(opts["return-code"]))
+                except (KeyError, ValueError):
+                    world._pending = None
                 try:
                     cli.pipeline.main(argv[2:], standalone_mode=False)
                     return 0
@@ -360,18 +376,6 @@ class PipelineWorld:
                 cluster.demote_from_submitter()
             except BaseException:
                 pass
-        state_after = self.read_state()
-        if state_before is not None and state_after is not None and state_before[0] != state_after[0] and isinstance(out, int):
-            # position: right after the mark event of this completion (the CLI runs after mark_complete) or first
-            idx = n_ev
-            for i in range(n_ev, len(self.events)):
-                if self.events[i][0] == "mark":
-                    idx = i + 1
-                    break
-            # if the hand-over ran before the mark (mutated code) the advance is placed before the stage events
-            if any(e[0] in ("auto", "read", "submit") for e in self.events[n_ev:idx]):
-                idx = n_ev
-            self.events.insert(idx, ("advance", state_after[0], out))
         return out, psn
 
     def resubmit_stage(self, k):
